@@ -85,7 +85,16 @@ class Replayer:
             try:
                 if a == "Defuzzify":
                     raw = [conv(pal, r) for r in st["raw"]]
-                    stub.next = np.array(raw[0]) if len(raw) == 1 else np.array(raw)
+                    # the forms a defuzzifier may return its result in: a writable array, a read-only array, a numpy scalar, a Python float
+                    form = (raise_mode + i) % 4
+                    nxt = np.array(raw[0]) if len(raw) == 1 else np.array(raw)
+                    if form == 1:
+                        nxt.setflags(write=False)
+                    elif form == 2 and len(raw) == 1:
+                        nxt = np.float64(raw[0])
+                    elif form == 3 and len(raw) == 1:
+                        nxt = float(raw[0])
+                    stub.next = nxt
                     ov.defuzzify()
                 elif a == "Raise":
                     try:
